@@ -113,3 +113,6 @@ def run(P, R, tier):
     _pp.check_pairwise_folds(P, R, ['kmeans', 'utils'])
     from ..engines import proto as _pbs
     _pbs.check_block_sums(P, R, "kmeans:m_step")
+
+
+EXPLANATION += ' Also: (ACC.sum) the per-block statistics are added (+=) from zero in the M-step; (DTYPE.raw); (COVER.pairs); (DIM.ABS) no dimensioned quantity is tested against an absolute constant.'
